@@ -329,7 +329,7 @@ def run(ctx):
     pool = ThreadPoolExecutor(max_workers=8)
 
     # 1. the model
-    mc_futs = model_checking(ctx, T, pool) if os.environ.get('G05_SKIP_MC') != '1' else []
+    mc_futs = model_checking(ctx, T, pool)
 
     # 2. behaviours for replay
     def gen_one(g):
